@@ -874,5 +874,15 @@ m("c19-registercoin-checks-name", "C19", "x/erc20/keeper/proposals.go",
   "k.IsDenomRegistered(ctx, coinMetadata.Base)", "k.IsDenomRegistered(ctx, coinMetadata.Name)",
   "duplicate-check-keyed-by-Base", "the duplicate check never hits")
 
+m("c15-mint-for-blocked-address", "C15", "x/evm/keeper/statedb.go",
+  "\t\tif k.bankKeeper.BlockedAddr(cosmosAddr) {\n\t\t\treturn errorsmod.Wrapf(errortypes.ErrUnauthorized, \"%s is not allowed to receive funds\", cosmosAddr)\n\t\t}\n", "",
+  "mint-branch-refuses-blocked", "minted coins stay in the evm module account when the recipient is blocked")
+m("c11-stretch-discards-remainder", "C11", "app/upgrades/v1.7.4/handler.go",
+  "\textraPeriods[stretchDays-1].Amount = extraPeriods[stretchDays-1].Amount.Add(sdk.NewCoin(Denom, calculationDiff))", "\textraPeriods[stretchDays-1].Amount.Add(sdk.NewCoin(Denom, calculationDiff))",
+  "discarded-Add", "the rounding remainder is computed and thrown away")
+m("c05-uncommitted-on-live-ctx", "C05", "x/evm/keeper/state_transition.go",
+  "\tif !commit {\n\t\tctx, _ = ctx.CacheContext()\n\t}\n", "",
+  "uncommitted-runs-on-a-branch", "trial executions write precompile effects into the live state")
+
 json.dump(M, open('/verif/mutants.json', 'w'), indent=1)
 print(len(M), "mutants written")
